@@ -17,7 +17,8 @@ EXPECT_ENTERED = ['DictStorage.write', 'DictStorage.get', 'DictStorage.load',
                   'RedisStorage.load', 'CloudStorage.write',
                   'CloudStorage.get', 'CloudStorage.increment_attempts']
 BOUNDS = {
-    'quick': 'every sequence of 4 operations (write, set_timestamp, '
+    'quick': 'recipient lists with distinct addresses and with one address '
+             'at two positions; every sequence of 4 operations (write, set_timestamp, '
              'increment_attempts, set_recipients_delivered [one round per '
              'message, any subset of 3 recipients, as list or as set], get, '
              'load, remove) over <=2 messages after an initial write, '
@@ -53,6 +54,8 @@ def cells(tier):
     for b in ('dict', 'disk', 'redis', 'cloud'):
         out.append({'kind': 'seq', 'backend': b, 'L': L, 'form': 'list'})
         out.append({'kind': 'seq', 'backend': b, 'L': L - 1, 'form': 'set'})
+        out.append({'kind': 'seq', 'backend': b, 'L': 2, 'form': 'list',
+                    'dup': 1})
         if b != 'dict':
             out.append({'kind': 'overlap', 'backend': b,
                         'L': 3 if tier == 'quick' else 4})
@@ -86,7 +89,7 @@ def env_view(env):
 
 
 def do_ops(store, ref, prefix, L, form, info, own=None, ids=None,
-           script=None):
+           script=None, RC=RC):
     """run L symbolic operations; compare every answer with the reference"""
     ids = ids if ids is not None else []
     nwrites = [0]
@@ -197,7 +200,9 @@ def run_seq(cell):
     store, sub = qc.make_storage(cell['backend'])
     ref = Ref()
     info = dict(backend=cell['backend'], form=cell['form'])
-    g = gevent.spawn(do_ops, store, ref, '', cell['L'], cell['form'], info)
+    rc = ['a@x', 'b@x', 'a@x'] if cell.get('dup') else RC
+    g = gevent.spawn(do_ops, store, ref, '', cell['L'], cell['form'], info,
+                     None, None, None, rc)
     qc.run_until_quiescent()
     if g.exception is not None:
         api.fail('operation-raised', exc=type(g.exception).__name__,
